@@ -96,7 +96,7 @@ def run(ctx):
             return p, compile_all(ctx["idlc"], p, os.path.join(vd, "out"), extra)
         plain_text = gen.render_trivia(f, r, "plain")
         psrc, ref = build("plain", plain_text)
-        for mode, count in (("ws", 2), ("level_comments", 2), ("inner_comments", 2)):
+        for mode, count in (("ws", 2), ("level_comments", 2), ("param_comments", 2), ("inner_comments", 2)):
             for j in range(count):
                 txt = gen.render_trivia(f, r, mode)
                 p, o = build("%s%d" % (mode, j), txt)
@@ -238,7 +238,7 @@ def run(ctx):
     res["coverage"] = {
         "evaluations": nvar, "distinct_nontrivial": distinct,
         "rule": "per generated single-file program: 2 whitespace/line-break re-renderings, 2 with ordinary comments between declarations/fields/members, "
-                "2 with comments between tokens, documentation changed / removed / followed by a comment, --marking, --no-typed-objects; each compared "
+                "2 with comments between whole parameters (after the opening parenthesis, after commas, before the closing parenthesis), 2 with comments between tokens, documentation changed / removed / followed by a comment, --marking, --no-typed-objects; each compared "
                 "with the plain rendering over 6 backend outputs; non-trivial = at least 2 declarations",
         "samples": [{"variant": v[0], "text": (v[1] or "")[:300]} for v in list(results.values())[0]["variants"][:2]] if results else [],
         "variants_run_and_differing": hist, "pst_trees_evaluated": len(mres),
